@@ -96,7 +96,7 @@ Section WithQ.
         simpl in *; try discriminate; constructor; auto. }
     destruct (ragged_sort_core es_row es_off es_len (t_emd t) mds (t_edges t) recs sorted E1 (eq_sym L) F P)
       as (mds' & CB & Pm & Lm & Lz & Em & MdR & RowR).
-    rewrite CB. simpl.
+    rewrite (get_offsets_head 0 mds). cbn [bind]. rewrite CB. simpl.
     exists (map es_row sorted), mds'. split; [|split; [|split; [|split; [|split; [|split; [|split]]]]]];
       [ | | | | reflexivity | exact Em | exact RowR | exact MdR ].
     - assert (EO : starts 0 mds' ++ skipn (length sorted) (offsets_of 0 mds) = offsets_of 0 mds').
@@ -144,7 +144,7 @@ Section WithQ.
         simpl in *; try discriminate; constructor; auto. }
     destruct (ragged_sort_core gs_row gs_off gs_len (t_gmd t) gds (t_migs t) recs sorted E1 (eq_sym L) F P)
       as (gds' & CB & Pm & Lm & Lz & Em & MdR & RowR).
-    rewrite CB. simpl.
+    rewrite (get_offsets_head 0 gds). cbn [bind]. rewrite CB. simpl.
     exists (map gs_row sorted), gds'. split; [|split; [|split; [|split; [|split; [|split; [|split]]]]]];
       [ | | | | reflexivity | exact Em | exact RowR | exact MdR ].
     - assert (EO : starts 0 gds' ++ skipn (length sorted) (offsets_of 0 gds) = offsets_of 0 gds').
